@@ -338,3 +338,44 @@ Definition read_ops (s : list N) : option (list (op * Z)) :=
                end
   | None => None
   end.
+
+(* ------------------------------------------------------------------------------------------
+   `addchain gen [-type T | -tmpl FILE] -out F script` (cmd/addchain/gen.go Execute, internal/cli
+   OpenOutput = os.Create): read and parse the input, PrepareData, LoadTemplate -- any failure so far
+   leaves F untouched --, then OpenOutput creates/truncates F, then Generate writes into it.
+   File system model: a file holds exactly the bytes of the last successful write (os.Create truncates);
+   None = the file does not exist.  Exit status 0 / 1. *)
+Inductive tmpl_sel :=
+| TType (name : list N)        (* -type name; also -tmpl with a file holding that builtin template's text *)
+| TBroken.                     (* -tmpl with a file that text/template cannot parse: Generate fails after F was truncated *)
+
+Definition gen_out_step (cfg : alloc_cfg) (t : tmpl_sel) (file : option (list N)) (src : list N) : N * option (list N) :=
+  match t with
+  | TType name =>
+      match gen cfg name src with
+      | Ok out => (0%N, Some out)
+      | _ => (1%N, file)
+      end
+  | TBroken =>
+      match obind (parse src) (prepare cfg) with
+      | Ok _ => (1%N, Some [])
+      | _ => (1%N, file)
+      end
+  end.
+
+(* a history of invocations into the same file: exit statuses (in order) and the final file *)
+Fixpoint gen_out_history (cfg : alloc_cfg) (t : tmpl_sel) (file : option (list N)) (srcs : list (list N)) : list N * option (list N) :=
+  match srcs with
+  | [] => ([], file)
+  | s :: r =>
+      let '(e, file') := gen_out_step cfg t file s in
+      let '(es, final) := gen_out_history cfg t file' r in
+      (e :: es, final)
+  end.
+
+(* `addchain gen -type T script` to standard output: exit status and the bytes printed *)
+Definition gen_stdout (cfg : alloc_cfg) (name src : list N) : N * list N :=
+  match gen cfg name src with
+  | Ok out => (0%N, out)
+  | _ => (1%N, [])
+  end.
